@@ -148,7 +148,7 @@ def eval_rewrite(case) -> Verdict:
             row = [oc.short(p)] * len(datas)
         else:
             for data in datas:
-                row.append(oc.short(oc.outcome_of(lambda: p[1].render(**data))))  # noqa: B023
+                row.append(oc.short(oc.render(case.get('api') or core.canon(case.get('main')), lambda: p[1], **data)))  # noqa: B023
         results.append(row)
     for i, (a, b) in enumerate(zip(*results)):
         if look:
